@@ -20,15 +20,15 @@ SetToSeq(S) == LET RECURSIVE F(_) F(T) == IF T = {} THEN <<>> ELSE LET x == CHOO
 MustIdsAreAccepted ==
   \A i \in 1..Len(words) :
     LET p == Ref(i) IN
-    NewArgMayStart(p) =>
+    NewArgMayStart(p, SubSeq(words, 1, i - 1)) =>
       \A m \in MustIds(p.c, p.st, words[i]) :
          IF m.k = "arg" THEN HasArg(p.c, m.id) ELSE FindSubcommand(p.c, m.id) # 0
 
 \* two records per state: the cursor on the last word, and on a fresh empty word after all of them
 \* (the second makes the engine walk every word, which is where its shadow parser can trip)
 RecAt(ws, i) == LET p == PrefixLevel(C0, SubSeq(ws, 1, i - 1), 1, 0, -1, 0) IN
-                [d |-> d, words |-> ws, i |-> i, newarg |-> NewArgMayStart(p),
-                 must |-> IF NewArgMayStart(p) THEN SetToSeq(MustIds(p.c, p.st, ws[i])) ELSE <<>>]
+                [d |-> d, words |-> ws, i |-> i, newarg |-> NewArgMayStart(p, SubSeq(ws, 1, i - 1)),
+                 must |-> IF NewArgMayStart(p, SubSeq(ws, 1, i - 1)) THEN SetToSeq(MustIds(p.c, p.st, ws[i])) ELSE <<>>]
 Emit == EmitOn =>
   /\ (words # <<>> => PrintT(<<"REPLAY", ToJson(RecAt(words, Len(words)))>>))
   /\ PrintT(<<"REPLAY", ToJson(RecAt(Append(words, <<>>), Len(words) + 1))>>)
